@@ -16,8 +16,8 @@ import (
 
 type aliasT struct {
 	name   string
-	typ    string // evy type
-	v0, v1 string // two distinct values
+	typ    string                     // evy type
+	v0, v1 string                     // two distinct values
 	upd    func(target string) string // in-place update statement for composites, rebinding for basics
 	basic  bool
 }
@@ -521,7 +521,7 @@ func RunC14(d *Driver) *Report {
 	for i := 0; i < ngen; i++ {
 		progs = append(progs, NewProgGen(rng, o).Program())
 	}
-	r.Rule = fmt.Sprintf("%d programs (terminating and endless loops, recursion, comment-only loop bodies, tests, events) x every yield k up to min(total yields, %d): the platform raises the stop flag during yield k. Direct checks on the real run: result is 'stopped', the effects are a prefix of the uninterrupted run's effects (plus at most the test summary), at least one yield between two consecutive effects inside loops; and class, effects and the yield count are compared with the Lean model stopped at the same yield. Non-trivial = distinct (program, k)", len(progs), cap)
+	r.Rule = fmt.Sprintf("%d programs (terminating and endless loops, recursion, comment-only loop bodies, tests, events) x every yield k up to min(total yields, %d), incl. three programs whose event handlers loop, with the stop raised at every yield of every handler run: the platform raises the stop flag during yield k. Direct checks on the real run: result is 'stopped', the effects are a prefix of the uninterrupted run's effects (plus at most the test summary), at least one yield between two consecutive effects inside loops; and class, effects and the yield count are compared with the Lean model stopped at the same yield. Non-trivial = distinct (program, k)", len(progs), cap)
 	parts := []string{"class", "trace", "yields"}
 	total := 0
 	for _, src := range progs {
@@ -563,6 +563,35 @@ func RunC14(d *Driver) *Report {
 			_ = c
 		}
 		r.Hist("yields_per_program", bucket(base.Yields))
+	}
+	// stops raised while an event handler runs (the host delivers events after the main program ended)
+	evProgs := []struct {
+		src string
+		evs []evaluator.Event
+	}{
+		{"n := 0\nprint \"main\"\non key k:string\n    for i := range 4\n        n = n + 1\n        print k i n\n    end\nend\n",
+			[]evaluator.Event{{Name: "key", Params: []any{"a"}}, {Name: "key", Params: []any{"b"}}}},
+		{"total := 0\non down x:num y:num\n    while total < x\n        total = total + y\n        print total\n    end\nend\non up\n    print \"up\" total\nend\n",
+			[]evaluator.Event{{Name: "down", Params: []any{6.0, 2.0}}, {Name: "up"}, {Name: "down", Params: []any{12.0, 3.0}}}},
+		{"func work n:num\n    for i := range n\n        print \"w\" i\n    end\nend\non animate t:num\n    work 3\n    print t\nend\nprint 0\n",
+			[]evaluator.Event{{Name: "animate", Params: []any{16.0}}, {Name: "animate", Params: []any{32.0}}}},
+	}
+	for _, ep := range evProgs {
+		base, _, _ := RunReal(ep.src, RunOpts{MaxYield: cap + 50, Events: ep.evs})
+		baseTrace := RealTrace(base)
+		ny := min(base.Yields, cap)
+		for k := 1; k <= ny; k++ {
+			total++
+			evalStream(r, d, "stop-in-handler", ep.src, RunOpts{StopAt: k, MaxYield: cap + 50, Events: ep.evs}, parts, true, func(c *EvalCmp) string {
+				if c.Real.Class != "stopped" && k < base.Yields {
+					return fmt.Sprintf("stop flag raised at yield %d of %d (events included) but the run ended with %s", k, base.Yields, c.Real.Class)
+				}
+				if !strings.HasPrefix(baseTrace, c.RTrace) {
+					return "effects after a stop are not a prefix of the uninterrupted run's effects"
+				}
+				return ""
+			})
+		}
 	}
 	r.Info["stop_points"] = total
 	r.DriverCalls = d.N
@@ -627,7 +656,7 @@ func RunC15(d *Driver) *Report {
 	}
 	parts := []string{"class", "trace", "globals"}
 	count := 0
-	r.Rule = "programs with every subset pattern of the six handlers and every accepted signature (no parameters, named, `_`), handler bodies that read and update globals, declare locals (also shadowing a global after reading it) and use their parameters; all event sequences of length <= 3 over the declared handlers plus random sequences of length <= 40. Effects and final globals compared with the Lean model, and (metamorphic oracle on the real evaluator) with the same program where each handler is a procedure called with the payload prefix. Non-trivial = distinct (program, sequence)"
+	r.Rule = "programs with every subset pattern of the six handlers and every accepted signature (no parameters, named, `_`), handler bodies that read and update globals, declare locals (also shadowing a global after reading it) and use their parameters; handlers also store their parameters into globals, array elements and map fields by plain assignment; all event sequences of length <= 3 over the declared handlers, the same event 2-3 times in a row with the identical payload (alone and around another event), plus random sequences of length <= 40 with runs of identical payloads. Effects and final globals compared with the Lean model, and (metamorphic oracle on the real evaluator) with the same program where each handler is a procedure called with the payload prefix. Non-trivial = distinct (program, sequence)"
 	body := func(name, params string) string {
 		var used []string
 		for _, p := range strings.Fields(params) {
@@ -636,7 +665,18 @@ func RunC15(d *Driver) *Report {
 				used = append(used, n)
 			}
 		}
-		b := "    print \"" + name + "\" " + strings.Join(used, " ") + " g total\n"
+		b := "    print \"" + name + "\" " + strings.Join(used, " ") + " g total lastn lasts hist names\n"
+		for _, p := range strings.Fields(params) {
+			pn := strings.SplitN(p, ":", 2)
+			if pn[0] == "_" {
+				continue
+			}
+			if pn[1] == "num" {
+				b += "    lastn = " + pn[0] + "\n    hist[0] = " + pn[0] + "\n    names.n = " + pn[0] + "\n"
+			} else {
+				b += "    lasts = " + pn[0] + "\n"
+			}
+		}
 		b += "    g = g + 1\n"
 		b += "    l := g * 100\n    print \"local\" l\n    l = l + 1\n"
 		if len(used) > 0 && (strings.Contains(params, ":num")) {
@@ -654,7 +694,7 @@ func RunC15(d *Driver) *Report {
 	for variant := 0; variant < 6; variant++ {
 		// choose one signature per handler (rotate through the alternatives)
 		var hs []hdl
-		src := "g := 0\ntotal := 0\nsh := 101\nprint \"main\" g\n"
+		src := "g := 0\ntotal := 0\nsh := 101\nlastn := 0\nlasts := \"\"\nhist := [0 0]\nnames := {n:0}\nprint \"main\" g\n"
 		fsrc := src
 		for hi, name := range names {
 			if (variant+hi)%4 == 3 {
@@ -699,12 +739,30 @@ func RunC15(d *Driver) *Report {
 			}
 			seqs = append(seqs, s)
 		}
+		// the same event several times in a row, with the identical payload
+		for a := range hs {
+			seqs = append(seqs, []int{a, a, -1}, []int{a, a, a, -1})
+			for b := range hs {
+				seqs = append(seqs, []int{a, a, b, a, a, -1})
+			}
+		}
 		for _, seq := range seqs {
 			var evs []evaluator.Event
 			calls := ""
+			samePayload := false
+			if len(seq) > 0 && seq[len(seq)-1] == -1 {
+				samePayload = true
+				seq = seq[:len(seq)-1]
+			}
 			for i, hi := range seq {
 				h := hs[hi]
-				pl := payload(h.name, i)
+				pi := i
+				if samePayload {
+					pi = 3
+				} else if len(seq) > 6 {
+					pi = i / 3 // runs of identical payloads inside the long random sequences
+				}
+				pl := payload(h.name, pi)
 				evs = append(evs, evaluator.Event{Name: h.name, Params: pl})
 				call := "h_" + h.name
 				for pi := range h.params {
@@ -742,4 +800,3 @@ func RunC15(d *Driver) *Report {
 	r.DriverCalls = d.N
 	return r
 }
-
